@@ -18,6 +18,14 @@ def color_regs(rng, mode):
     # a share of boundary colours: every component at an end of its range (kelvin 0 is the
     # register's initial value), and black with kelvin 0 — raw [0, 0, 0, 0] — outright
     k = rng.random()
+    if k > 0.9:
+        # register contents outside the protocol's ranges: whatever a plain `set` makes of them,
+        # the cells must carry the same
+        names = ('red', 'green', 'blue') if mode == 'rgb' else ('hue', 'saturation', 'brightness')
+        big = {'raw': [-100, 70000, 131077, 65536], 'rgb': [-5, 150, 100.5], 'logical': [-30, 400, 725, 360.5]}[mode]
+        vals = [rng.choice(big) if rng.random() < 0.6 else 0 for _ in range(3)] + \
+            [rng.choice([-100, 70000, 3500, 2500.5])]
+        return dict(zip(names + ('kelvin',), vals))
     if k < 0.25:
         top = {'raw': (65535, 65535), 'rgb': (100, 100), 'logical': (360, 100)}[mode]
         names = ('red', 'green', 'blue') if mode == 'rgb' else ('hue', 'saturation', 'brightness')
